@@ -117,9 +117,11 @@ def compare(ctx: Ctx, d: dict, d2: dict, L: bg.Lift, r: dict, r2: dict):
         # reported MAVE offsets are REF coordinates
         by2 = {}
         for x in rows2:
-            by2.setdefault((x['mutator'], x['mseq'], x['vcf_var_id'], L.a2r(int(x['mut_position']))), x)
+            by2.setdefault((x['mutator'], x['mseq'], x['vcf_alias'], x['vcf_var_id'], x['ref'], x['new'], L.a2r(int(x['mut_position']))), x)
         for x in rows:
-            y = by2.get((x['mutator'], x['mseq'], x['vcf_var_id'], int(x['mut_position'])))
+            # (two custom records of different files, or differently padded, can give the same oligonucleotide at the same position:
+            #  the twin is the row of the same record)
+            y = by2.get((x['mutator'], x['mseq'], x['vcf_alias'], x['vcf_var_id'], x['ref'], x['new'], int(x['mut_position'])))
             if y is None or x['pam_mut_sgrna_id'] != y['pam_mut_sgrna_id']:
                 continue
             for col in ('mave_nt', 'mave_nt_ref'):
